@@ -7,6 +7,7 @@ CONSTANTS
     Stores = {"A", "B", "C"}
     Threshold = 1
     DrainNewStore = TRUE
+    NewStoreSend = "block"
     NCap = 32
     TraceFile = "trace.ndjson"
 CONSTRAINT TraceConstraint
